@@ -925,7 +925,7 @@ fn gen_file_program(rng: &mut Rng, exists: &mut BTreeSet<String>) -> Scenario {
     let nops = 3 + rng.below(20);
     let mut random_open: Option<i32> = None;
     let second_view = rng.chance(1, 2);
-    let random_len: i32 = *rng.pick(&[8, 8, 10, 12]);
+    let random_len: i32 = *rng.pick(&[8, 8, 10, 12, 16, 20]);
     let mut put_records: BTreeSet<i32> = BTreeSet::new();
     for _ in 0..nops {
         let w = [10u32, 10, 8, 8, 4, 6, 3, 3, 6];
